@@ -38,8 +38,10 @@ def Opt(t):
     return ('opt', t)
 
 
-def Dict(k, v):
-    return ('dict', k, v)
+def Dict(k, v, tag=None):
+    """tag: a memory region name.  Dictionaries with different tags are assumed to be different objects
+    (ownership, A-OWN) and their contents live in separate heap maps."""
+    return ('dict', k, v) if tag is None else ('dict', k, v, tag)
 
 
 def List(e):
@@ -126,6 +128,23 @@ def sort_of(ty):
 
 
 DEFS = {}
+_OPAQUE = {}
+
+
+def opaque(name, formula):
+    """a named boolean standing for a (large, quantified) formula.  Queries first run with the definition hidden
+    and reveal it only when needed (see solve.py).  Structurally identical formulas share one name."""
+    fid = formula.get_id()
+    c = _OPAQUE.get(fid)
+    if c is None:
+        c = z3.Bool(fresh_name('def_' + name))
+        _OPAQUE[fid] = c
+        DEFS[c.get_id()] = (c, c == formula, [])
+        _KEEP.append(formula)
+    return c
+
+
+_KEEP = []
 _fresh_counter = [0]
 
 
@@ -359,11 +378,12 @@ class VOpt(Val):
 
 
 class VDict(Val):
-    def __init__(self, ref, k, v):
+    def __init__(self, ref, k, v, tag=None):
         self.t = ref
         self.k = k
         self.v = v
-        self.ty = ('dict', k, v)
+        self.tag = tag
+        self.ty = ('dict', k, v) if tag is None else ('dict', k, v, tag)
 
 
 class VList(Val):
@@ -466,7 +486,7 @@ def from_term(ty, t):
     if k == 'opt':
         return VOpt(ty[1], t)
     if k == 'dict':
-        return VDict(t, ty[1], ty[2])
+        return VDict(t, ty[1], ty[2], ty[3] if len(ty) > 3 else None)
     if k == 'list':
         return VList(t, ty[1])
     if k == 'seq':
@@ -542,6 +562,10 @@ def coerce(v, ty):
         v.e = ty[1]
         v.ty = ty
         v.pending = False
+        return v
+    if k == 'dict' and isinstance(v, VDict):
+        if len(ty) > 3 and v.tag is None:
+            return VDict(v.t, v.k, v.v, ty[3])     # a dictionary stored into a tagged field lives in that region
         return v
     if k in ('dict', 'list') and v.ty[0] == k:
         return v
